@@ -66,9 +66,16 @@ var chains = []string{"state-only", "state+other", "other+state"}
 
 func runSend(client bool, bufN int, seq []msgSpec, recycled bool) *explore.Fail {
 	for _, chain := range chains {
-		if f := runSendChain(client, bufN, seq, recycled, chain); f != nil {
-			f.Detail = "send extensions: " + chain + "\n" + f.Detail
-			return f
+		// origin: the writer was made for text messages, or made for a control opcode (a pong
+		// writer, say) and switched to text with the quick ResetOp
+		for _, origin := range []string{"made-for-text", "made-for-pong-then-ResetOp"} {
+			if f := runSendChain(client, bufN, seq, recycled, chain, origin); f != nil {
+				f.Detail = "send extensions: " + chain + "; writer " + origin + "\n" + f.Detail
+				return f
+			}
+			if recycled || len(seq) > 1 {
+				break
+			}
 		}
 		if recycled || len(seq) > 2 {
 			break
@@ -77,7 +84,7 @@ func runSend(client bool, bufN int, seq []msgSpec, recycled bool) *explore.Fail 
 	return nil
 }
 
-func runSendChain(client bool, bufN int, seq []msgSpec, recycled bool, chain string) *explore.Fail {
+func runSendChain(client bool, bufN int, seq []msgSpec, recycled bool, chain, origin string) *explore.Fail {
 	d := env.NewDst()
 	st := ws.StateServerSide
 	if client {
@@ -97,6 +104,8 @@ func runSendChain(client bool, bufN int, seq []msgSpec, recycled bool, chain str
 		w.Write(bytes.Repeat([]byte{'x'}, 3*bufN))
 		w.Flush()
 		w.Reset(d, st, ws.OpText)
+	} else if origin == "made-for-pong-then-ResetOp" {
+		w = wsutil.NewWriterBufferSize(d, st, ws.OpPong, bufN)
 	} else {
 		w = wsutil.NewWriterBufferSize(d, st, ws.OpText, bufN)
 	}
@@ -107,6 +116,9 @@ func runSendChain(client bool, bufN int, seq []msgSpec, recycled bool, chain str
 		w.SetExtensions(identityExt, &ms)
 	default:
 		w.SetExtensions(&ms)
+	}
+	if origin == "made-for-pong-then-ResetOp" {
+		w.ResetOp(ws.OpText)
 	}
 	S := w.Size()
 	type want struct {
